@@ -1,5 +1,5 @@
 """C06  Fq and Fr arithmetic is exact integer arithmetic modulo q and r."""
-from .. import gen, rm
+from .. import gen, rm, paths
 from ..mon import check
 from ..rm import q, r, h32
 
@@ -137,4 +137,10 @@ def run(ctx, spec):
     for line, an, (cls, want, key, nontriv, pc) in zip(lines, ans, exp):
         if check(ctx, an, want, cls.split('/')[0], cls, key, line=line, nontrivial=nontriv):
             ctx.count('pair:' + pc)
+            # white-box coverage measurement (informational): which carry paths of the Montgomery reduction did this operand drive?
+            if key and key[0] in ('mul', 'sqr') and rng.random() < 0.08:
+                A = rm.mont(key[2] if key[0] == 'mul' else key[1], p if key[0] == 'mul' else q)
+                B = rm.mont(key[3], p) if key[0] == 'mul' else A
+                for e in paths.mul_events(A, B, p if key[0] == 'mul' else q):
+                    ctx.count('path:%s:%s' % ('mul' if key[0] == 'mul' else 'square', e))
     ctx.sample(f, {'program_head': lines[:3], 'answers_head': ans[:3]})
